@@ -111,9 +111,47 @@ Local Open Scope byte_scope.
 """
 
 
+THEORIES = [os.path.join(COQ, 'theories')]      # the model the cases are evaluated with (switched to the reference model by use_theories)
+
+
+def use_theories(path=None):
+    THEORIES[0] = path or os.path.join(COQ, 'theories')
+
+
 def coqc_file(path, timeout=1800):
-    rc, log = sh(['coqc', '-Q', os.path.join(COQ, 'theories'), 'Minidyn', path], cwd=os.path.dirname(path), timeout=timeout)
+    rc, log = sh(['coqc', '-Q', THEORIES[0], 'Minidyn', path], cwd=os.path.dirname(path), timeout=timeout)
     return rc, log
+
+
+def tables_differ_from_reference():
+    """Gen/Tables.v (regenerated from /repo) vs coq/ref/Tables.v (the tables the proofs were written against)"""
+    a = open(os.path.join(COQ, 'theories', 'Gen', 'Tables.v')).read()
+    b = open(os.path.join(COQ, 'ref', 'Tables.v')).read()
+    return a != b
+
+
+def build_ref_model():
+    """A copy of the executable model built with the committed reference tables: used to search for a concrete
+    failing input when the generated tables (precedences, keywords, reserved words, limits, ...) changed."""
+    import shutil
+    with Lock('refmodel'):
+        ref = os.path.join(BUILD, 'ref')
+        th = os.path.join(ref, 'theories')
+        if os.path.isdir(ref):
+            shutil.rmtree(ref)
+        for d in ('Base', 'Model', 'Gen'):
+            shutil.copytree(os.path.join(COQ, 'theories', d), os.path.join(th, d),
+                            ignore=shutil.ignore_patterns('*.vo', '*.vok', '*.vos', '*.glob', '.*.aux'))
+        shutil.copy(os.path.join(COQ, 'ref', 'Tables.v'), os.path.join(th, 'Gen', 'Tables.v'))
+        files = [l.strip() for l in open(os.path.join(COQ, '_CoqProject')) if l.startswith('theories/') and
+                 l.split('/')[1] in ('Base', 'Model', 'Gen')]
+        with open(os.path.join(ref, '_CoqProject'), 'w') as f:
+            f.write('-Q theories Minidyn\n' + '\n'.join(files) + '\n')
+        rc, log = sh(['coq_makefile', '-f', '_CoqProject', '-o', 'Makefile'], cwd=ref)
+        rc, log = sh(['make', '-j16'], cwd=ref, timeout=3600)
+        if rc:
+            raise BuildError('ref-model', log[-3000:])
+        return th
 
 
 def check_cases(sdk, cases, tag='cases', shard=None, viewf=None):
